@@ -353,7 +353,9 @@ def run(run):
 
 
 # ------------------------------------------------------------------ end to end: the line inside a document, through lasio.read
-DOC_SECTIONS = [("Version", "~Version"), ("Well", "~Well"), ("Curves", "~Curve"), ("Parameter", "~Parameter"), ("Tops", "~Tops")]
+DOC_SECTIONS = [("Version", ["~Version", "~V", "~VERSION INFORMATION", "~v"]), ("Well", ["~Well", "~W", "~w", "~WELL INFORMATION BLOCK"]),
+                ("Curves", ["~Curve", "~C", "~c", "~CURVE INFORMATION"]), ("Parameter", ["~Parameter", "~P", "~p", "~Par", "~PARAMETER INFORMATION", "~Params"]),
+                ("Tops", ["~Tops"])]
 TEXT_VALUES = ["12,25 then 8,5 hole", "LSD 12,4 SEC 7", "1,234,567", "a1,2b", "3,14 rad", "KB 12,5 ft", "|azimuth| < 5", "a | b", "x|y|z", "1,5-2,5"]
 
 
@@ -362,7 +364,8 @@ def doc_case(run, rng, i):
     (value through the literal recogniser of C08's oracle; LAS 1.2 ~Well lines are `MNEM.UNIT DESCR : VALUE`)"""
     import lasio
     from . import c08
-    secname, title = DOC_SECTIONS[i % len(DOC_SECTIONS)]
+    secname, titles = DOC_SECTIONS[i % len(DOC_SECTIONS)]
+    title = rng.choice(titles)
     version = ("1.2", "2.0", "3.0")[(i // len(DOC_SECTIONS)) % 3]
     gsec = secname if secname != "Tops" else "other"
     f, p = gen_case(rng, gsec)
@@ -383,7 +386,7 @@ def doc_case(run, rng, i):
     if not pad_ok(f, p, gsec):
         return
     line = layout(f, p)
-    text = "~Version\nVERS. %s : v\nWRAP. NO : w\n" % version + ("" if secname == "Version" else title + "\n") + line + "\n~A\n"
+    text = (title if secname == "Version" else "~Version") + "\nVERS. %s : v\nWRAP. NO : w\n" % version + ("" if secname == "Version" else title + "\n") + line + "\n~A\n"
     case = {"doc": text, "sec": secname, "version": version, "fields": f, "pads": p}
     run.case(case, nontrivial=True, tags=["document", "docsec=" + secname, "docversion=" + version])
     try:
